@@ -234,13 +234,20 @@ func verifC13Padding() {
 		vAssume(n%64 != 0) // keep labels <= 63 bytes
 	}
 	m := &Message{RD: 1, Question: []Question{{Name: string(name), Type: 65, Class: 1}}}
-	switch vInt(0, 3) {
+	var keep []Option // the caller's own options: they must survive
+	shape := vInt(0, 4)
+	switch shape {
 	case 1:
 		m.Additional = []RR{{Type: 41, Class: 4096, Data: []Option{}}}
 	case 2:
+		keep = []Option{{Code: 5, Data: []byte{1, 2}}}
 		m.Additional = []RR{{Type: 41, Class: 4096, Data: []Option{{Code: 5, Data: []byte{1, 2}}}}}
 	case 3:
+		keep = []Option{{Code: 5, Data: []byte{9}}}
 		m.Additional = []RR{{Type: 41, Class: 4096, Data: []Option{{Code: 12, Data: make([]byte, vInt(0, 3))}, {Code: 5, Data: []byte{9}}}}}
+	case 4: // the OPT record is not the first additional record
+		keep = []Option{{Code: 10, Data: []byte{7, 7}}}
+		m.Additional = []RR{{Name: "x", Type: 1, Class: 1, TTL: 5, Data: net.IP{10, 0, 0, 1}}, {Type: 41, Class: 1232, Data: []Option{{Code: 10, Data: []byte{7, 7}}}}}
 	}
 	m.AddPadding()
 	b := m.Bytes()
@@ -258,6 +265,32 @@ func verifC13Padding() {
 		}
 	}
 	vAssert(pads == 1, "exactly one padding option")
+	vAssert(d.Question[0].Class == 1, "question class unchanged")
+	nOpt := 0
+	for _, rr := range d.Additional {
+		opts, ok := rr.Data.([]Option)
+		if !ok {
+			continue
+		}
+		nOpt++
+		var others []Option
+		for _, o := range opts {
+			if o.Code != 12 {
+				others = append(others, o)
+			}
+		}
+		vAssert(len(others) == len(keep), "the caller's other EDNS options survive padding")
+		for i := range keep {
+			vAssert(i < len(others) && others[i].Code == keep[i].Code && vEqBytes(others[i].Data, keep[i].Data), "the caller's other EDNS options survive padding")
+		}
+		if shape == 4 {
+			vAssert(rr.Class == 1232, "the OPT record's payload size is kept")
+		}
+	}
+	vAssert(nOpt == 1, "exactly one OPT record")
+	if shape == 4 {
+		vAssert(len(d.Additional) == 2 && d.Additional[0].Type == 1, "other additional records are kept, in place")
+	}
 	vReach("padded")
 }
 
@@ -571,4 +604,210 @@ func verifC13Exact() {
 	vAssert(len(got) == len(want), "encoded length equals the reference encoding's (no missing or stray bytes)")
 	vAssert(vEqBytes(got, want), "encoded message equals the reference encoding byte for byte")
 	vReach("exact")
+}
+
+// verifC13RefEncode: a response written by the reference encoder - symbolic
+// header flags, one question, one RR of a type this package can only decode
+// (TXT, MX, SOA, SRV, SVCB), an HTTPS record in a foreign but legal encoding
+// (several hints, the mandatory key 0, an unknown key 7, keys in order), or an
+// OPT record in the additional section; names inside RDATA are written either
+// in full or as label + pointer to the question name.  DecodeMessage must
+// return exactly the fields that were written.
+func verifC13RefEncode() {
+	qname := vName(2)
+	vAssume(len(qname) > 0)
+	f1, f2 := vByte(), vByte()
+	f2 &^= 0x70 // the Z bits are reserved
+	kind := vInt(0, 6)
+	hdr := []byte{0x12, 0x34, f1, f2, 0, 1, 0, 1, 0, 0, 0, 0}
+	if kind == 6 {
+		hdr[7], hdr[11] = 0, 1
+	}
+	q := vCat(vRefName(qname, -1), []byte{0, 1, 0, 1})
+	// a name in RDATA: "x" + qname, written in full or compressed against the question
+	l := vByte()
+	vAssume(l != '.')
+	rname := string([]byte{l}) + "." + qname
+	wire := vCat([]byte{1, l}, vRefName(qname, -1))
+	if vBool() {
+		wire = []byte{1, l, 0xc0, 12}
+	}
+	var typ uint16
+	var rd []byte
+	var check func(RR)
+	switch kind {
+	case 0: // TXT: 0..2 character strings
+		typ = 16
+		var want []string
+		for i, n := 0, vInt(0, 2); i < n; i++ {
+			t := vBytes(vInt(0, 2))
+			rd = vCat(rd, []byte{byte(len(t))}, t)
+			want = append(want, string(t))
+		}
+		check = func(rr RR) {
+			t, ok := rr.Data.(TXT)
+			vAssert(ok && len(t) == len(want), "TXT: every character string is returned")
+			for i := range want {
+				vAssert(i < len(t) && t[i] == want[i], "TXT string")
+			}
+		}
+	case 1:
+		typ = 15
+		pref := vUint16()
+		rd = vCat(vU16b(pref), wire)
+		check = func(rr RR) {
+			m, ok := rr.Data.(MX)
+			vAssert(ok && m.Preference == pref && m.Exchange == rname, "MX preference and exchange")
+		}
+	case 2:
+		typ = 6
+		nums := vBytes(20)
+		rd = vCat(wire, vRefName(qname, -1), nums)
+		check = func(rr RR) {
+			so, ok := rr.Data.(SOA)
+			u := func(i int) uint32 {
+				return uint32(nums[i])<<24 | uint32(nums[i+1])<<16 | uint32(nums[i+2])<<8 | uint32(nums[i+3])
+			}
+			vAssert(ok && so.MName == rname && so.RName == qname, "SOA names")
+			vAssert(ok && so.Serial == u(0) && so.Refresh == u(4) && so.Retry == u(8) && so.Expire == u(12) && so.Minimum == u(16), "SOA numbers")
+		}
+	case 3:
+		typ = 33
+		a, b, c := vUint16(), vUint16(), vUint16()
+		rd = vCat(vU16b(a), vU16b(b), vU16b(c), wire)
+		check = func(rr RR) {
+			sv, ok := rr.Data.(SRV)
+			vAssert(ok && sv.Priority == a && sv.Weight == b && sv.Port == c && sv.Target == rname, "SRV fields")
+		}
+	case 4: // SVCB with 0..2 parameters of arbitrary (increasing) keys
+		typ = 64
+		prio := vUint16()
+		rd = vCat(vU16b(prio), vRefName(qname, -1))
+		var keys []uint16
+		var vals [][]byte
+		k0 := vUint16()
+		for i, n := 0, vInt(0, 2); i < n; i++ {
+			key := k0
+			if i == 1 {
+				key = vUint16()
+				vAssume(key > k0)
+			}
+			val := vBytes(vInt(0, 2))
+			rd = vCat(rd, vU16b(key), vU16b(uint16(len(val))), val)
+			keys = append(keys, key)
+			vals = append(vals, val)
+		}
+		check = func(rr RR) {
+			sv, ok := rr.Data.(SVCB)
+			vAssert(ok && sv.Priority == prio && sv.Target == qname && len(sv.Params) == len(keys), "SVCB priority, target, number of parameters")
+			for i := range keys {
+				vAssert(i < len(sv.Params) && sv.Params[i].Key == keys[i] && vEqBytes(sv.Params[i].Value, vals[i]), "SVCB parameter")
+			}
+		}
+	case 5: // HTTPS as another implementation may write it
+		typ = 65
+		prio := vUint16()
+		rd = vCat(vU16b(prio), vRefName(qname, -1))
+		mandatory := vBool()
+		if mandatory {
+			rd = vCat(rd, vU16b(0), vU16b(2), vU16b(1)) // mandatory = alpn
+		}
+		proto := vBytes(2)
+		rd = vCat(rd, vU16b(1), vU16b(3), []byte{2}, proto)
+		ip4 := vBytes(8)
+		rd = vCat(rd, vU16b(4), vU16b(8), ip4)
+		ip6 := vBytes(32)
+		rd = vCat(rd, vU16b(6), vU16b(32), ip6)
+		unknown := vBool()
+		if unknown {
+			rd = vCat(rd, vU16b(7), vU16b(2), []byte("/d")) // dohpath
+		}
+		check = func(rr RR) {
+			h, ok := rr.Data.(HTTPS)
+			vAssert(ok && h.Priority == prio && h.Target == qname, "HTTPS priority and target")
+			vAssert(ok && len(h.ALPN) == 1 && h.ALPN[0] == string(proto), "HTTPS alpn")
+			vAssert(ok && len(h.IPv4Hint) == 2 && vEqBytes(h.IPv4Hint[0], ip4[:4]) && vEqBytes(h.IPv4Hint[1], ip4[4:]), "HTTPS: every ipv4hint address is returned")
+			vAssert(ok && len(h.IPv6Hint) == 2 && vEqBytes(h.IPv6Hint[0], ip6[:16]) && vEqBytes(h.IPv6Hint[1], ip6[16:]), "HTTPS: every ipv6hint address is returned")
+		}
+	case 6: // OPT (EDNS, RFC 6891) in the additional section, root owner
+		typ = 41
+		var codes []uint16
+		var datas [][]byte
+		for i, n := 0, vInt(0, 2); i < n; i++ {
+			c := vUint16()
+			dt := vBytes(vInt(0, 2))
+			rd = vCat(rd, vU16b(c), vU16b(uint16(len(dt))), dt)
+			codes = append(codes, c)
+			datas = append(datas, dt)
+		}
+		check = func(rr RR) {
+			o, ok := rr.Data.([]Option)
+			vAssert(ok && len(o) == len(codes), "OPT: every option is returned")
+			for i := range codes {
+				vAssert(i < len(o) && o[i].Code == codes[i] && vEqBytes(o[i].Data, datas[i]), "OPT option code and data")
+			}
+		}
+	}
+	ttl := vUint32()
+	cls := vUint16()
+	owner := []byte{0xc0, 12}
+	ownerName := qname
+	if kind == 6 {
+		owner, ownerName = []byte{0}, ""
+	}
+	rr := vCat(owner, vU16b(typ), vU16b(cls), []byte{byte(ttl >> 24), byte(ttl >> 16), byte(ttl >> 8), byte(ttl)}, vU16b(uint16(len(rd))), rd)
+	msg := vCat(hdr, q, rr)
+	d, err := DecodeMessage(msg)
+	vAssert(err == nil, "reference-encoded response decodes")
+	vAssert(d.ID == 0x1234 && d.QR == f1>>7 && d.OpCode == f1>>3&0xf && d.AA == f1>>2&1 && d.TC == f1>>1&1 && d.RD == f1&1 && d.RA == f2>>7 && d.RCode == f2&0xf, "header fields at their RFC 1035 bit positions")
+	vAssert(len(d.Question) == 1 && d.Question[0].Name == qname && d.Question[0].Type == 1 && d.Question[0].Class == 1, "question")
+	sec := d.Answer
+	if kind == 6 {
+		sec = d.Additional
+	}
+	vAssert(len(sec) == 1 && len(d.Answer)+len(d.Authority)+len(d.Additional) == 1, "one record, in its section")
+	got := sec[0]
+	vAssert(got.Name == ownerName && got.Type == typ && got.Class == cls && got.TTL == ttl, "owner, type, class, TTL")
+	check(got)
+	vReach("refencoded")
+}
+
+// verifC13MaxName: names of the maximal legal size (255 octets on the wire: 127
+// one-byte labels, or 63.63.63.61) and one octet shorter encode, decode back to
+// the same question and survive AddPadding.
+func verifC13MaxName() {
+	var name []byte
+	switch vInt(0, 3) {
+	case 0, 1:
+		n := 127 - vInt(0, 1)
+		for i := 0; i < n; i++ {
+			if i > 0 {
+				name = append(name, '.')
+			}
+			name = append(name, 'a'+byte(i%26))
+		}
+	default:
+		for _, l := range []int{63, 63, 63, 61 - vInt(0, 1)} {
+			if len(name) > 0 {
+				name = append(name, '.')
+			}
+			for i := 0; i < l; i++ {
+				name = append(name, 'k')
+			}
+		}
+	}
+	m := &Message{RD: 1, Question: []Question{{Name: string(name), Type: 65, Class: 1}}}
+	if vBool() {
+		m.AddPadding()
+		vAssert(len(m.Bytes())%128 == 0, "padded length is a multiple of 128")
+	}
+	b := m.Bytes()
+	vAssert(vEqBytes(b[12:12+len(name)+2], vRefName(string(name), -1)), "maximal name encoded label by label")
+	d, err := DecodeMessage(b)
+	vAssert(err == nil && len(d.Question) == 1 && d.Question[0].Name == string(name), "a name of maximal legal size round-trips")
+	// and as an answer owner reached through a pointer
+	resp := vCat([]byte{0, 0, 0x81, 0x80, 0, 1, 0, 1, 0, 0, 0, 0}, b[12:12+len(name)+2+4], []byte{0xc0, 12, 0, 1, 0, 1, 0, 0, 0, 9, 0, 4, 10, 0, 0, 1})
+	d2, err := DecodeMessage(resp)
+	vAssert(err == nil && len(d2.Answer) == 1 && d2.Answer[0].Name == string(name), "a maximal name reached through a compression pointer decodes")
+	vReach("maxname")
 }
